@@ -1,13 +1,14 @@
 """Statement-level symbolic execution: paths between cut points, loop contracts,
 yield hooks (ghost executor), function entry/exit obligations."""
 import ast
+from fractions import Fraction
 
 import z3
 
 from .engine import (Engine, State, Frame, Signal, And, Or, Not, Implies, Ite, to_opt, EXC_PARENTS,
                      ACTION_KINDS)
 from .values import (Unsupported, EngineError, is_z3, is_boolish, is_intish, simp, Z, ZB, EnumV, Opt,
-                     SymList, EmptyList, SymSet, Obj, ActionV, ClassRef, FuncV, RangeV, ListLit, SymMap2, NdArray3, IndexV)
+                     SymList, EmptyList, SymSet, Obj, ActionV, ClassRef, FuncV, RangeV, ListLit, SymMap2, NdArray3, IndexV, Grid2, GridRow)
 from .source import AnchorError, FuncInfo
 
 MUTATORS = {"append", "pop", "add", "remove", "discard"}
@@ -419,6 +420,8 @@ class Verifier(Engine):
             if isinstance(t, ast.Name) and self.last_min_witness is not None:
                 # x = min([...]): the index attaining the minimum is available to hints as x__argmin
                 st.assign(t.id + "__argmin", self.last_min_witness)
+            elif isinstance(t, ast.Subscript) and self.last_min_witness is not None and not self.concrete:
+                st.assign("store__argmin", self.last_min_witness)      # table[...] = min([...])
             hint_keys = []
             if isinstance(t, ast.Subscript) and not self.concrete and st.frames[-1].func is self.fi:
                 site = self.fi.sites.get(id(s), "")          # "store[k]"
@@ -563,6 +566,28 @@ class Verifier(Engine):
                 raise Unsupported("array store pattern")
             self.store_target(t.value, NdArray3(comps, arr.d0, arr.d1), st, node)
             return
+        if isinstance(t, ast.Subscript) and isinstance(t.value, ast.Subscript) and \
+                isinstance(t.value.value, ast.Subscript):
+            root = self.ev(t.value.value.value, st)
+            if isinstance(root, tuple) and all(isinstance(x, Grid2) for x in root):
+                k = self.ev(t.value.value.slice, st)
+                if not isinstance(k, int) or not (0 <= k < len(root)):
+                    raise Unsupported("table store with a symbolic level")
+                g = root[k]
+                l = self.ev(t.value.slice, st)
+                m = self.ev(t.slice, st)
+                self.oblige(st, And(self.cmp(ast.GtE(), l, 0), self.cmp(ast.Lt(), l, g.d0),
+                                    self.cmp(ast.GtE(), m, 0), self.cmp(ast.Lt(), m, g.d1)),
+                            "index_in_range", node)
+                if not (is_intish(val) or is_z3(val) or isinstance(val, (int, Fraction))):
+                    raise Unsupported("table store of %s" % type(val).__name__)
+                from .values import ZR
+                rowv = z3.Store(z3.Select(g.val, Z(l)), Z(m), ZR(val))
+                rowi = z3.Store(z3.Select(g.inf, Z(l)), Z(m), z3.BoolVal(False))
+                ng = Grid2(simp(z3.Store(g.inf, Z(l), rowi)), simp(z3.Store(g.val, Z(l), rowv)), g.d0, g.d1)
+                self.store_target(t.value.value.value, tuple(ng if i == k else x for i, x in enumerate(root)),
+                                  st, node)
+                return
         if isinstance(t, ast.Subscript):
             base = self.ev(t.value, st)
             idx = self.ev(t.slice, st)
@@ -629,6 +654,8 @@ class Verifier(Engine):
                                 fields.add((e.value.id, e.attr))
                             elif isinstance(e, ast.Subscript) and isinstance(e.ctx, ast.Store):
                                 b = e.value
+                                while isinstance(b, ast.Subscript):
+                                    b = b.value
                                 if isinstance(b, ast.Name):
                                     names.add(b.id)
                                 elif isinstance(b, ast.Attribute) and isinstance(b.value, ast.Name):
@@ -807,6 +834,8 @@ class Verifier(Engine):
             return self.loop_unrolled(s, st, test_node, body, for_info)
         k = self.loop_ordinal(s, st)
         spec = self.contract.loop_spec(k, fingerprint)
+        if spec.unroll:
+            return self.loop_unrolled(s, st, test_node, body, for_info, limit=16)
         site = "loop[%d]" % k
         # 1. invariant holds on entry
         for label, expr in spec.inv:
